@@ -38,6 +38,12 @@ class Site:
     def __init__(self, relpath, func, kind, node, src):
         self.relpath, self.func, self.kind = relpath, func, kind
         self.text = ' '.join((ast.get_source_segment(src, node) or ast.dump(node)).split())[:160]
+        v = getattr(node, 'value', None)
+        if kind == 'escape' and isinstance(node, ast.Return) and isinstance(v, ast.Call) and isinstance(v.func, ast.Name) and not v.keywords:
+            # `return frozenset(X)` / `return set(X)` / `return cls(X)` with cls a local alias of a set constructor: one key for all
+            # spellings -- what escapes is "a new set of the items of X"
+            args = ', '.join(' '.join((ast.get_source_segment(src, a) or ast.dump(a)).split()) for a in v.args)
+            self.text = ('return <new set of> ' + args)[:160]
 
     def key(self):
         return '%s:%s:%s:%s' % (self.relpath, self.func, self.kind, self.text)
@@ -50,6 +56,13 @@ class FuncScan(ast.NodeVisitor):
     def __init__(self, relpath, qual, fn, src, sites):
         self.relpath, self.qual, self.src, self.sites = relpath, qual, src, sites
         self.setnames = set()
+        # local aliases of the set constructors: `cls = frozenset if as_set else tuple` -> cls(...) may build a set
+        self.ctor_aliases = set()
+        for node in ast.walk(fn):
+            if isinstance(node, ast.Assign) and len(node.targets) == 1 and isinstance(node.targets[0], ast.Name):
+                cands = [node.value.body, node.value.orelse] if isinstance(node.value, ast.IfExp) else [node.value]
+                if any(isinstance(c, ast.Name) and c.id in SET_CALLS for c in cands):
+                    self.ctor_aliases.add(node.targets[0].id)
         # two passes so that names assigned later in loops are known
         for _ in range(2):
             for node in ast.walk(fn):
@@ -66,7 +79,7 @@ class FuncScan(ast.NodeVisitor):
         if isinstance(e, (ast.Set, ast.SetComp)):
             return True
         if isinstance(e, ast.Call):
-            if isinstance(e.func, ast.Name) and e.func.id in SET_CALLS:
+            if isinstance(e.func, ast.Name) and (e.func.id in SET_CALLS or e.func.id in self.ctor_aliases):
                 return True
             if isinstance(e.func, ast.Attribute) and e.func.attr in SETLIKE_RESULT_METHODS and self.is_set(e.func.value):
                 return True
